@@ -60,17 +60,16 @@ fn tiny_minialloc() -> MiniAllocator<TF> {
     macc::mk(dir, Vec::new(), EOC, Vec::new())
 }
 
+/// One-shot fault of the storage model: armed by the harness, consumed by the
+/// next storage call of the enabled kind.
 fn fault(enabled: bool) -> bool {
     unsafe {
         if !enabled || FAIL_BUDGET == 0 {
             return false;
         }
-        let b: bool = kani::any();
-        if b {
-            FAIL_BUDGET -= 1;
-            FAILED += 1;
-        }
-        b
+        FAIL_BUDGET -= 1;
+        FAILED += 1;
+        true
     }
 }
 
@@ -322,6 +321,11 @@ pub fn op_c(s: &mut Stream<TF>, m: &mut Model, code: u8) {
         14 => do_set_len(s, m, 7),
         15 => do_set_len(s, m, 20),
         16 => do_flush(s),
+        18 => unsafe { FAIL_BUDGET = 1; FAIL_READS = true; FAIL_WRITES = false; },
+        19 => unsafe { FAIL_BUDGET = 1; FAIL_WRITES = true; FAIL_READS = false; },
+        20 => do_read_maybe_fail(s, m, 6),
+        21 => do_flush_maybe_fail(s),
+        22 => do_seek_maybe_fail(s, m, SeekFrom::Start(0)),
         _ => do_set_len(s, m, 12),
     }
     assert!(s.len() == m.len as u64, "C06: len() is not current");
@@ -392,6 +396,61 @@ fn do_set_len(s: &mut Stream<TF>, m: &mut Model, x: usize) {
     if m.pos > x {
         m.pos = x;
     }
+}
+
+/// C12: a read under an armed storage read fault: Err (position unchanged) or the true bytes.
+fn do_read_maybe_fail(s: &mut Stream<TF>, m: &mut Model, n: usize) {
+    let before = unsafe { FAILED };
+    let mut buf = [0u8; 10];
+    let (r, _) = split(s.read(&mut buf[..n]));
+    let injected = unsafe { FAILED } != before;
+    match r {
+        None => {
+            assert!(injected, "C12: read failed although no fault was injected");
+            assert!(sacc::position(s) == m.pos as u64, "C12: a failed read moved the position");
+        }
+        Some(got) => {
+            let avail = m.len - m.pos;
+            assert!(got <= n && got <= avail && (got > 0 || avail == 0), "C12: read count under fault injection");
+            let mut ok = true;
+            let mut k = 0;
+            while k < got {
+                ok &= buf[k] == m.b[m.pos + k];
+                k += 1;
+            }
+            assert!(ok, "C12: a read that returned Ok returned bytes that differ from the stream's true content (stale window after a failed refill)");
+            m.pos += got;
+        }
+    }
+    unsafe { FAIL_BUDGET = 0; }
+}
+
+/// C13: a flush under an armed storage write fault: the error surfaces.
+fn do_flush_maybe_fail(s: &mut Stream<TF>) {
+    let before = unsafe { FAILED };
+    let (r, _) = split(s.flush());
+    let injected = unsafe { FAILED } != before;
+    if injected {
+        assert!(r.is_none(), "C13: a failure while writing the buffer back was swallowed by flush");
+    } else {
+        assert!(r.is_some(), "C13: flush failed although no fault was injected");
+    }
+    unsafe { FAIL_BUDGET = 0; }
+}
+
+/// C13: a seek that has to write the dirty window back under an armed write fault.
+fn do_seek_maybe_fail(s: &mut Stream<TF>, m: &mut Model, arg: SeekFrom) {
+    let before = unsafe { FAILED };
+    let (r, _) = split(s.seek(arg));
+    let injected = unsafe { FAILED } != before;
+    if injected {
+        assert!(r.is_none(), "C13: a failure while writing the buffer back was swallowed by seek");
+        assert!(sacc::position(s) == m.pos as u64, "C13/C10: a failed seek moved the position");
+    } else {
+        assert!(r == Some(0), "C06: seek to the start");
+        m.pos = 0;
+    }
+    unsafe { FAIL_BUDGET = 0; }
 }
 
 fn do_flush(s: &mut Stream<TF>) {
